@@ -86,7 +86,7 @@ Section Facts.
   Variable client_flush : bytes -> flush_result.
   Variable client_handshake : bytes -> bytes -> option pyexn.
   Variable PS RS : Type.
-  Variable pipeline_step : PS -> bytes -> option (PS * list bytes).
+  Variable pipeline_step : PS -> bytes -> (PS * list bytes) + pipe_failure.
   Variable response_step : RS -> bytes -> option RS.
 
   Notation wrap_server_ := (wrap_server handshake).
@@ -1028,7 +1028,6 @@ Section Facts.
   Lemma intercepted_fold fl evs : forall h outs,
     established h -> Forall (engaged_at fl) evs -> Forall benign evs ->
     pipeline_outs pipeline_step (pipe h) (client_chunks evs) = Some outs ->
-    responses_ok response_step (resp h) (upstream_chunks evs) = true ->
     let hf := fold_left (step_ fl) evs h in
     established hf /\
     exists wc wu,
@@ -1037,18 +1036,17 @@ Section Facts.
       concat (map snd wu) ++ concat (up_buf (ps hf)) = concat (up_buf (ps h)) ++ concat outs /\
       concat (map snd wc) ++ concat (cl_buf (ps hf)) = concat (cl_buf (ps h)) ++ concat (upstream_chunks evs).
   Proof.
-    induction evs as [|ev t IH]; intros h outs Hest Hall Hben Hpipe Hresp; cbn [fold_left].
+    induction evs as [|ev t IH]; intros h outs Hest Hall Hben Hpipe; cbn [fold_left].
     - unfold client_chunks in Hpipe. simpl in Hpipe. inv Hpipe.
       split; [assumption|]. exists [], []. unfold upstream_chunks. simpl. rewrite !app_nil_r.
       repeat split; auto; constructor.
     - inversion Hall as [|? ? Hev Ht]; subst. inversion Hben as [|? ? Hbev Hbt]; subst.
-      destruct (chunks_cons ev t) as (Hc & Hu). rewrite Hc in Hpipe. rewrite Hu in Hresp.
+      destruct (chunks_cons ev t) as (Hc & Hu). rewrite Hc in Hpipe.
       destruct Hest as (Hm & Hcl & Hup).
       assert (Hstep : exists outs1 outs2 wc1 wu1,
                  outs = outs1 ++ outs2 /\
                  established (step_ fl h ev) /\
                  pipeline_outs pipeline_step (pipe (step_ fl h ev)) (client_chunks t) = Some outs2 /\
-                 responses_ok response_step (resp (step_ fl h ev)) (upstream_chunks t) = true /\
                  cl_wire (ps (step_ fl h ev)) = cl_wire (ps h) ++ wc1 /\ tls_wire wc1 /\
                  up_wire (ps (step_ fl h ev)) = up_wire (ps h) ++ wu1 /\ tls_wire wu1 /\
                  concat (map snd wu1) ++ concat (up_buf (ps (step_ fl h ev))) = concat (up_buf (ps h)) ++ concat outs1 /\
@@ -1064,20 +1062,18 @@ Section Facts.
             exists o1, o2, [], []. unfold established, upstream_chunks. simpl. rewrite !app_nil_r, concat_app.
             repeat split; auto; constructor.
           + unfold read_from_descriptors. rewrite Hup. simpl. rewrite (Hev a eq_refl).
-            unfold upstream_chunks in Hresp. simpl in Hresp.
-            destruct (response_step (resp h) raw) as [r'|] eqn:Hrs; [|discriminate].
             exists [], outs, [], []. unfold established, upstream_chunks. simpl. rewrite !app_nil_r, concat_app. simpl.
             rewrite !app_nil_r. repeat split; auto; constructor.
-        - destruct (chunks_io ev Hans) as (Hc0 & Hu0). rewrite Hc0 in Hpipe. rewrite Hu0 in Hresp. simpl in Hpipe, Hresp.
+        - destruct (chunks_io ev Hans) as (Hc0 & Hu0). rewrite Hc0 in Hpipe. simpl in Hpipe.
           assert (Hcl' : cl (ps h) <> ClDead) by (rewrite Hcl; discriminate).
           assert (Hup' : up_fd_valid (up (ps h)) = true) by (rewrite Hup; reflexivity).
           destruct (io_step fl h ev Hm Hcl' Hup' Hbev Hans) as (Hm' & Hp' & Hr' & (wc & Hwc & Htc & Hcc) & (wu & Hwu & Htu & Hcu)).
           destruct (step_fixed fl h ev) as (_ & _ & Ecl & Eup).
           rewrite Hcl in Htc. rewrite Hup in Htu. simpl in Htc, Htu.
-          exists [], outs, wc, wu. rewrite Hu0, Hp', Hr'. simpl. rewrite !app_nil_r.
+          exists [], outs, wc, wu. rewrite Hu0, Hp'. simpl. rewrite !app_nil_r.
           repeat split; auto; congruence. }
-      destruct Hstep as (o1 & o2 & wc1 & wu1 & -> & Hest' & Hpipe' & Hresp' & Hcw & Htc & Huw & Htu & Hub & Hcb).
-      destruct (IH _ _ Hest' Ht Hbt Hpipe' Hresp') as (Hest'' & wc2 & wu2 & Hcw2 & Htc2 & Huw2 & Htu2 & Hub2 & Hcb2).
+      destruct Hstep as (o1 & o2 & wc1 & wu1 & -> & Hest' & Hpipe' & Hcw & Htc & Huw & Htu & Hub & Hcb).
+      destruct (IH _ _ Hest' Ht Hbt Hpipe') as (Hest'' & wc2 & wu2 & Hcw2 & Htc2 & Huw2 & Htu2 & Hub2 & Hcb2).
       split; [assumption|]. exists (wc1 ++ wc2), (wu1 ++ wu2).
       rewrite Hcw2, Hcw, Huw2, Huw, <- !app_assoc. repeat split; auto.
       + apply Forall_app; auto.
@@ -1351,7 +1347,6 @@ Section Facts.
     cl (ps h1) = ClTls ->
     Forall (engaged_at fl) evs -> Forall benign evs ->
     pipeline_outs pipeline_step p0 (client_chunks evs) = Some outs ->
-    responses_ok response_step r0 (upstream_chunks evs) = true ->
     established hf /\
     exists w0 wc,
       cl_wire (ps hf) = w0 ++ wc /\ plain_wire w0 /\ tls_wire wc /\
@@ -1359,13 +1354,13 @@ Section Facts.
       concat (map snd (up_wire (ps hf))) ++ concat (up_buf (ps hf)) = concat outs /\
       concat (map snd w0) ++ concat (map snd wc) ++ concat (cl_buf (ps hf)) = K200 ++ concat (upstream_chunks evs).
   Proof.
-    cbv zeta. intros Htls Hall Hben Hpipe Hresp. unfold run.
+    cbv zeta. intros Htls Hall Hben Hpipe. unfold run.
     destruct (hc_client_tls fl host port answers fs0 p0 r0 Htls)
       as (h & p & t & _ & _ & _ & _ & _ & _ & _ & _ & Hm & Hup & Hub & Huw & Hplain & Hcat & _ & _ & _ & Hp0 & Hr0).
     set (h1 := handle_connect_ fl host port answers (init_h fs0 p0 r0)) in *.
     assert (Hest : established h1) by (repeat split; assumption).
-    rewrite <- Hp0 in Hpipe. rewrite <- Hr0 in Hresp.
-    destruct (intercepted_fold fl evs h1 outs Hest Hall Hben Hpipe Hresp)
+    rewrite <- Hp0 in Hpipe.
+    destruct (intercepted_fold fl evs h1 outs Hest Hall Hben Hpipe)
       as (Hest' & wc & wu & Hcw & Htc & Huw' & Htu & Hub' & Hcb').
     split; [assumption|]. exists (cl_wire (ps h1)), wc.
     rewrite Huw, app_nil_l in Huw'. rewrite Hub in Hub'. simpl in Hub'.
@@ -1373,5 +1368,55 @@ Section Facts.
     - rewrite Huw'. assumption.
     - rewrite Huw'. assumption.
     - rewrite Hcb', app_assoc, Hcat. reflexivity.
+  Qed.
+
+  (* ================================================================ the two failure branches of the relay callbacks *)
+  (* read_from_descriptors under interception (fix ba95ac6): whatever the bookkeeping response parser does
+     with an origin chunk - digest it or raise - the chunk is queued for the client unmodified, behind what is
+     already queued, and mode, escaped exception, both wires and the upstream buffer are untouched.  Holds for
+     EVERY [response_step] (it is a Section variable), in Running and in MustFlush mode. *)
+  Theorem response_chunk_relayed_whatever_the_parser fl h a raw :
+    mode h = Running \/ mode h = MustFlush -> up_fd_valid (up (ps h)) = true ->
+    let h' := step_ fl h (UpstreamData a raw) in
+    cl_buf (ps h') = cl_buf (ps h) ++ [raw] /\ mode h' = mode h /\ escaped h' = escaped h /\
+    cl_wire (ps h') = cl_wire (ps h) /\ up_buf (ps h') = up_buf (ps h) /\ up_wire (ps h') = up_wire (ps h) /\
+    pipe h' = pipe h.
+  Proof.
+    intros Hm Hv. cbv zeta. unfold step. destruct Hm as [Hm|Hm]; rewrite Hm, Hv; unfold read_from_descriptors;
+      destruct (tls_intercept_enabled_ fl a); simpl; rewrite ?Hm; repeat split; reflexivity.
+  Qed.
+
+  (* on_client_data under interception, the request parser raises HttpProtocolException on a decrypted chunk
+     (after queueing [outs] for the origin): nothing escapes handle_events, nothing pending for the client is
+     lost - with output pending the handler only stops reading the client (must_flush_before_shutdown) and
+     the next complete flush delivers every pending chunk, inside the client's TLS session when there is one,
+     and only then closes; with nothing pending it closes at once. *)
+  Theorem protocol_exception_delivers_pending fl h a raw outs :
+    mode h = Running -> up (ps h) <> UpNone -> tls_intercept_enabled_ fl a = true ->
+    pipeline_step (pipe h) raw = inr (PipeProtocol outs) ->
+    let h1 := step_ fl h (ClientData a raw) in
+    escaped h1 = escaped h /\ cl_buf (ps h1) = cl_buf (ps h) /\ cl_wire (ps h1) = cl_wire (ps h) /\
+    up_buf (ps h1) = up_buf (ps h) ++ outs /\ up_wire (ps h1) = up_wire (ps h) /\
+    (cl_buf (ps h) = [] -> mode h1 = Closed) /\
+    (cl_buf (ps h) <> [] ->
+       mode h1 = MustFlush /\
+       step_ fl h1 (ClientData a raw) = h1 /\
+       (cl (ps h) <> ClDead ->
+        let h2 := step_ fl h1 FlushClient in
+        mode h2 = Closed /\ escaped h2 = escaped h /\ cl_buf (ps h2) = [] /\
+        cl_wire (ps h2) = cl_wire (ps h) ++ map (fun d => (is_tls_cl (cl (ps h)), d)) (cl_buf (ps h)))).
+  Proof.
+    intros Hm Hup Hen Hps.
+    assert (E1 : step_ fl h (ClientData a raw) =
+                 with_mode (with_ps h (fst (set_up_buf (up_buf (ps h) ++ outs) (ps h))))
+                           (after_handle_data_true (fst (set_up_buf (up_buf (ps h) ++ outs) (ps h))))).
+    { unfold step. rewrite Hm. unfold on_client_data. rewrite Hen, Hps. destruct (up (ps h)); [contradiction|reflexivity|reflexivity|reflexivity]. }
+    cbv zeta. rewrite E1. clear E1. unfold after_handle_data_true, set_up_buf, with_mode, with_ps. simpl.
+    destruct (cl_buf (ps h)) as [|b0 rest] eqn:Ecb.
+    - do 5 (split; [reflexivity|]). split; [reflexivity|]. intros X. exfalso. apply X. reflexivity.
+    - do 5 (split; [reflexivity|]). split; [intros X; discriminate X|]. intros _.
+      split; [reflexivity|]. split; [reflexivity|].
+      intros Hcl. unfold step. simpl.
+      destruct (cl (ps h)) eqn:Ecl; [| |contradiction]; simpl; repeat split; reflexivity.
   Qed.
 End Facts.
